@@ -266,6 +266,9 @@ mut("yosys_revert_subcomp_ifc_index_order", "pymtl3/passes/backends/yosys/transl
 mut("tr_revert_reserved_subcomp_check", "pymtl3/passes/backends/verilog/translation/structural/VStructuralTranslatorL4.py",
     "    s.check_decl( c_id, f\"sub-component {c_id} of {m}\" )\n", "    pass\n", ["C03"])
 
+mut("c15_revert_paramtreenode_import", "pymtl3/dsl/Component.py",
+    "from .NamedObject import NamedObject, ParamTreeNode", "from .NamedObject import NamedObject", ["C15"])
+
 
 def load_extra():
   p = os.path.join(VERIF, "tools", "mutants_extra.json")
